@@ -1,7 +1,7 @@
 (* C18 — Persistent-reference hooks are called as documented and invert each other. *)
 From Coq Require Import List ZArith NArith Bool.
 From Coq.Strings Require Import Byte.
-From OgRek Require Import Base Value Reader Decoder Encoder Norm TypingFacts HookFacts ExecFacts RoundTrip.
+From OgRek Require Import Base Value Reader Decoder Encoder Norm NormMaps TypingFacts HookFacts ExecFacts RoundTrip RoundTripMaps.
 Import ListNotations.
 
 (* ---- Decode side: d_log is the list of Refs handed to PersistentLoad, most recent first ------- *)
@@ -164,6 +164,26 @@ Example C18_graph_p0 :
   end.
 Proof. vm_compute. split; reflexivity. Qed.
 
-(* NOT PROVED (hence _partial): graphs that contain maps, Dicts or
-   structs encoded by value (outside norm).  Decided on every run by decoding the encoder
-   output again and by comparing the hook call logs with CPython's. *)
+(* the same for graphs that hold maps, Dicts and structs encoded by value: the content, read through
+   the decoder's heap, is NormMaps.norm2 c pd g v (references replaced by what the hook makes of
+   them, maps / Dicts as the result of the assignments) *)
+Theorem C18_inverse_hooks_with_maps : forall c pd load g v cvl st rest,
+  hook_spec load g ->
+  (0 <= e_proto c <= 5)%Z -> norm2 c pd g v = Some cvl -> heap_bound st ->
+  snd (run_w (encode c v) None) = EOk /\
+  exists x st',
+    decode (dcfg_h c pd load) st (output (encode c v) ++ rest) = ((Ok x, st'), rest) /\
+    content (d_heap st') x cvl /\ gext (d_heap st) (d_heap st') /\ heap_bound st'.
+Proof. exact encode_decode_maps. Qed.
+Print Assumptions C18_inverse_hooks_with_maps.
+
+Example C18_graph_with_map :
+  let c := Build_econfig 2 false (fun _ => false) (fun _ => []) in
+  let v := RMap [(RStr SPlain [x6b], RPtr true (Some (RStr SPlain [x61])) (RStruct []));
+                 (RInt 2, RList [RPtr true (Some (RStr SPlain [x7a])) (RStruct [])])] in
+  norm2 c true ex_g v = Some (CDict [(CLeaf (TStr [x6b]), CLeaf (TUser 0)); (CLeaf (TInt 2), CLeaf (TList [TRef (TStr [x7a])]))]).
+Proof. vm_compute. reflexivity. Qed.
+
+(* Outside the theorems: references whose id itself holds a map, *big.Int keys of a builtin map.
+   Decided on every run by decoding the encoder output again and by comparing the hook call logs
+   with CPython's. *)
